@@ -5,6 +5,12 @@ PROP = {
     'streams': [{'name': 'route', 'harness': 'umh_route', 'driver': 'route',
                  'timeout': {'quick': 600, 'thorough': 3000}}],
     'assumptions': [
+        'long-lived proxies: within a case the same real MetaManagers receive every SETCLUSTER of the broker history '
+        '(epoch-increasing: balance_masters during a migration at every gate level, commit of one of two concurrent '
+        'migrations while the other runs, failover during a migration with the failed process killed, commit rounds); '
+        'after every re-sync one key per slot class (both ends of every range of the view) is routed from every proxy. '
+        'Model side: C02_install_last_only / C02_install_seq_last_only / C02_route_last_only — the installed routing '
+        'state is a function of the last accepted metadata, only the phases of tasks with an unchanged key carry over',
         'C02_stable_reachable / C02_migrating_reachable / C02_no_third_node_reachable: every operation list whose prefixes '
         'satisfy C01\'s size bound PlanBound (<= 16384 masters per cluster), every cluster found by name, every migration '
         'limit; SyncedWith = every proxy address of the stored cluster is reachable and has Installed a meta WireFaithful to '
@@ -94,7 +100,9 @@ CHECK = {
             'reproduced on the real code. KNOWN-FINDING F02a: add_proxy accepts two equal node addresses; such a proxy '
             'hosting both masters after a failover answers "slot not covered" for half of the slots although every proxy is '
             'synced (C02_full_false_dup_node_address; generator class dup_node_address_failover). Every run replays >= 24 store histories (scale-out, commit, failover, '
-            'failover mid-migration, scale-down, migration limit, forced path) through the real stack, walks the '
+            'failover mid-migration, scale-down, migration limit, forced path) through the real stack on long-lived '
+            'proxies that re-apply the metadata of every later broker state (balance_masters / commit of one of two '
+            'migrations / failover while tasks run: C02_install_last_only, C02_route_last_only), walks the '
             'handshake through 7 gate levels, follows >= 18 000 client runs (one sweep of all 16384 slots) and compares '
             'every reply kind, MOVED target, executing node, task state and SETCLUSTER reply with the model.',
     'note': 'Trusted: Lean kernel; generated tables; the harness network and fake backends; broker model (tied by the '
